@@ -229,11 +229,11 @@ elif drv is None:
     ck.violation("extracted model/driver does not build", {"correspondence": "ocaml/C11_driver.ml", "log": dlog[-2000:]}, no_input=True)
 else:
     env = dict(os.environ, ASAN_OPTIONS="detect_leaks=0")
-    rc1, out1 = verif.sh([exe, casefile], timeout=3000, env=env)
+    rc1, out1 = verif.sh([exe, casefile], timeout=900, env=env)
     impl = [l for l in out1.splitlines() if l.split(" ", 1)[0] in ("OK", "DEADLOCK", "BADCASE", "CRASH", "SKIPPED")]
     outfile = os.path.join(ck.scratch, "impl.txt")
     open(outfile, "w").write("\n".join(impl) + "\n")
-    rc2, out2 = verif.sh([drv, casefile, outfile], timeout=3000)
+    rc2, out2 = verif.sh([drv, casefile, outfile], timeout=900)
     model = out2.splitlines()
     if rc1 != 0 or len(impl) < len(cases) or any(l.startswith("CRASH") for l in impl):
         found = True
